@@ -722,7 +722,8 @@ func first(a, _ []byte) []byte { return a }
 //@   opt extent on
 //@   let rootTag0 = t.root.tag
 //@   requires WF1in_$KIND(t) && sizeSane(t)
-//@   ensures[removed_key_matches] implies(result, reveal(as($KINDLeafNode, leaf).key.obj) && reveal(keyS.obj) && leafKeyIs_$KIND(leaf, keyS))
+//@   ghost_at "ref.deleteChild(keyS[depth])" matchedAtUnlink = leafKeyIs_$KIND(leaf, keyS)
+//@   ensures[removed_key_matches] implies(result, ite(defined(matchedAtUnlink), matchedAtUnlink, reveal(as($KINDLeafNode, leaf).key.obj) && reveal(keyS.obj) && leafKeyIs_$KIND(leaf, keyS)))
 //@   assume_at_call (*nodeRef).deleteChild : implies(isMerge(*ptr) && survT(*ptr, b) != 4, survP(*ptr, b) != ptr.obj && as(node, survP(*ptr, b)).prefixLen + as(node4, (*ptr).pointer).prefixLen + 1 < 4294967296)
 //@   ensures[wf] WF1_$KIND(t)
 //@   ensures[size] t.size == old(t.size) - ite(result, 1, 0)
